@@ -827,6 +827,9 @@ class Interp:
                 raise OutOfReach("membership test")
             return snot(res) if t is ast.NotIn else res
         if t is ast.Eq or t is ast.NotEq:
+            if getattr(l, "qv_value", False) and hasattr(l, "vshape") or getattr(r, "qv_value", False) and hasattr(r, "vshape"):
+                if not (isinstance(l, tuple) or isinstance(r, tuple) or l is None or r is None or isinstance(l, str) or isinstance(r, str)):
+                    return (l == r) if t is ast.Eq else (l != r)
             if isinstance(l, Opaque) or isinstance(r, Opaque):
                 raise OutOfReach("comparison with an uninterpreted value")
             if isinstance(l, str) or isinstance(r, str) or l is None or r is None:
